@@ -66,20 +66,22 @@ def conformance(pid, tier, seed):
         mod, cfg = conf_mod(fam)
         cfgs = [("default", {})]
         if fam == "AES":
-            cfgs = AES_CFGS
+            cfgs = AES_CFGS + [(sid, {}) for sid, _ in shadow_cfgs(("AES",))]
         elif fam == "Kuznyechik":
-            cfgs = KUZ_CFGS
+            cfgs = KUZ_CFGS + [(sid, {}) for sid, _ in shadow_cfgs(("Kuznyechik",))]
         elif fam == "Serpent":
             cfgs = SERPENT_CFGS
         # per-family effort (TLC cost per key schedule differs by orders of magnitude)
         if fam == "Blowfish":
             kw = dict(keys=6 if thorough else 2, blocks=3 if thorough else 2, lens="all")
         elif fam in ("Serpent", "Kuznyechik", "Threefish", "Gift"):
-            kw = dict(keys=6 if thorough else 3, blocks=4 if thorough else 2, lens="all" if thorough else "few")
+            kw = dict(keys=12 if thorough else 4, blocks=6 if thorough else 3, lens="all")
         elif fam == "RC2":
-            kw = dict(keys=3 if thorough else 2, blocks=2, lens="all" if thorough else "few")
+            kw = dict(keys=4 if thorough else 2, blocks=3 if thorough else 2, lens="all")
+        elif fam == "AES":
+            kw = dict(keys=24 if thorough else 6, blocks=8 if thorough else 3, lens="all")
         else:
-            kw = dict(keys=24 if thorough else 5, blocks=6 if thorough else 3, lens="all" if thorough else "few")
+            kw = dict(keys=40 if thorough else 10, blocks=8 if thorough else 4, lens="all")
         evs = []
         for i, (cfg_id, extra) in enumerate(cfgs):
             k = dict(kw)
@@ -125,7 +127,7 @@ def c17(tier, seed):
     r = c.model_check("AES_Haz_MC.tla", "AES_Haz_MC.cfg", "AES_Haz_MC", workers=4, timeout=600)
     mod, cfg = conf_mod("AES")
     evs = []
-    for i, (cfg_id, extra) in enumerate(AES_CFGS):
+    for i, (cfg_id, extra) in enumerate(AES_CFGS + [(sid, {}) for sid, _ in shadow_cfgs(("AES",))]):
         if cfg_id == "aes-compact":
             continue
         e = c.drive(cfg_id, "hazmat", n=200 if tier == T else 30, **extra)
@@ -169,7 +171,7 @@ def c01(tier, seed):
     thorough = tier == T
     c.model_check("MC_API.tla", "MC_API.cfg" if thorough else "MC_API_quick.cfg", "MC_API", workers=8, timeout=1500)
     evs = []
-    for i, (cfg_id, extra, fam) in enumerate(all_configs_for_roundtrip()):
+    for i, (cfg_id, extra, fam) in enumerate(all_configs_for_roundtrip() + [(sid, {}, fam) for sid, fam in shadow_cfgs(("AES", "Kuznyechik"))]):
         kw = dict(keys=10 if thorough else 3, blocks=6 if thorough else 2, lens="all" if thorough else "few")
         if fam:
             kw["family"] = fam
@@ -190,7 +192,8 @@ def c03(tier, seed):
     c = Check("C03", tier, seed)
     thorough = tier == T
     kw = dict(keys=8 if thorough else 3, blocks=5 if thorough else 2)
-    groups = [("AES", AES_CFGS), ("Kuznyechik", KUZ_CFGS), ("Serpent", SERPENT_CFGS)]
+    groups = [("AES", AES_CFGS + [(sid, {}) for sid, _ in shadow_cfgs(("AES",))]),
+              ("Kuznyechik", KUZ_CFGS + [(sid, {}) for sid, _ in shadow_cfgs(("Kuznyechik",))]), ("Serpent", SERPENT_CFGS)]
     for fam, cfgs in groups:
         traces = []
         for cfg_id, extra in cfgs:
@@ -217,6 +220,7 @@ def c04(tier, seed):
     evs = []
     cfgs = [("default", {}, None), ("aes-soft", {}, "AES"), ("aes-soft-compact", {}, "AES"),
             ("aes-detect-off", {"force_off": 1}, "AES"), ("kuz-soft", {}, "Kuznyechik"), ("kuz-compact", {}, "Kuznyechik")]
+    cfgs += [(sid, {}, fam) for sid, fam in shadow_cfgs(("AES", "Kuznyechik"))]
     for i, (cfg_id, extra, fam) in enumerate(cfgs):
         kw = dict(mult=3 if thorough else 2, random=4 if thorough else 1)
         if thorough and fam:
@@ -260,6 +264,7 @@ def c12(tier, seed):
     evs = []
     plan = [("default", "Aes128,Aes192,Aes256,Kuznyechik"), ("aes-detect-off", "Aes128,Aes256"), ("aes-soft", "Aes192"),
             ("kuz-soft", "Kuznyechik"), ("kuz-compact", "Kuznyechik")]
+    plan += [(sid, "Aes128,Aes192,Aes256" if fam == "AES" else "Kuznyechik") for sid, fam in shadow_cfgs(("AES", "Kuznyechik"))]
     for i, (cfg_id, profs) in enumerate(plan):
         evs += renumber(c.drive(cfg_id, "replay", scenarios=scen_path, profiles=profs,
                                 limit=(n if thorough else 150)), i * 10_000_000)
@@ -278,8 +283,9 @@ def c12(tier, seed):
     sweep = []
     for i, (cfg_id, extra, fam) in enumerate([("default", {}, None), ("aes-detect-off", {"force_off": 1}, "AES"),
                                               ("aes-soft", {}, "AES"), ("aes-soft-compact", {}, "AES"),
-                                              ("kuz-soft", {}, "Kuznyechik"), ("kuz-compact", {}, "Kuznyechik")]):
-        kw = dict(keys=4 if thorough else 2, lens="all" if (thorough or not fam is None) else "all")
+                                              ("kuz-soft", {}, "Kuznyechik"), ("kuz-compact", {}, "Kuznyechik")]
+                                             + [(sid, {}, fam) for sid, fam in shadow_cfgs(("AES", "Kuznyechik"))]):
+        kw = dict(keys=4 if thorough else 2, lens="all")
         if fam:
             kw["family"] = fam
         kw.update(extra)
@@ -401,7 +407,9 @@ def c20(tier, seed):
         traces.append((cfg_id, c.drive(cfg_id, "wblock", may_die=True, minlen=32, maxlen=80 if not thorough else 200, extra=3, keys=2,
                                        big=2 if not thorough else 6)))
     c.validate(merge_by_run(traces), API_MOD, API_CFG, "tot-wblock", what="dev vs release, wblock")
-    for fam, cfgs in (("AES", ["aes-soft", "aes-soft-compact"]), ("Kuznyechik", ["kuz-soft", "kuz-compact"]), ("Serpent", ["serpent-loop"])):
+    sh = shadow_cfgs(("AES", "Kuznyechik"))
+    for fam, cfgs in (("AES", ["aes-soft", "aes-soft-compact"] + [s for s, f in sh if f == "AES"]),
+                      ("Kuznyechik", ["kuz-soft", "kuz-compact"] + [s for s, f in sh if f == "Kuznyechik"]), ("Serpent", ["serpent-loop"])):
         for cfg_id in cfgs:
             e = c.drive(cfg_id, "conf", may_die=True, family=fam, keys=4, blocks=3)
             c.validate(e, API_MOD, API_CFG, f"tot-{cfg_id}", what=f"totality {cfg_id}")
